@@ -298,7 +298,50 @@ func (n *nodeJSON) UnmarshalJSON(b []byte) error {
 	// > This key is treated as the name of an extension function or method. The value must
 	// > be a JSON array of values, each of which is itself an JsonExpr object. Note that for
 	// > method calls, the method receiver is the first argument.
-	return json.Unmarshal(b, &n.ExtensionCall)
+	return n.unmarshalExtensionCall(b)
+}
+
+// unmarshalExtensionCall decodes the object b into n.ExtensionCall: every key is a function name and its value the
+// array of arguments. UnmarshalJSON has decoded b into the struct fields before, so the arguments under a key that
+// encoding/json matched with the Set field are decoded already. They are not decoded a second time: doing so for
+// a "Set" nested in a "Set" doubles the work at every level of nesting.
+func (n *nodeJSON) unmarshalExtensionCall(b []byte) error {
+	decoder := json.NewDecoder(bytes.NewReader(b))
+	if _, err := decoder.Token(); err != nil { // the opening brace
+		return err
+	}
+	n.ExtensionCall = extensionJSON{}
+	var kindErr error
+	for decoder.More() {
+		key, err := decoder.Token()
+		if err != nil {
+			return err
+		}
+		name, _ := key.(string)
+		var raw []json.RawMessage
+		if err := decoder.Decode(&raw); err != nil {
+			// not an array: as with json.Unmarshal, this is reported unless an argument of a later key fails to decode
+			if kindErr == nil {
+				kindErr = err
+			}
+			continue
+		}
+		if n.Set != nil && strings.EqualFold(name, "Set") {
+			n.ExtensionCall[name] = *n.Set
+			continue
+		}
+		var args arrayJSON
+		if raw != nil {
+			args = make(arrayJSON, len(raw))
+		}
+		for i := range raw {
+			if err := args[i].UnmarshalJSON(raw[i]); err != nil {
+				return err
+			}
+		}
+		n.ExtensionCall[name] = args
+	}
+	return kindErr
 }
 
 func (p *Policy) UnmarshalJSON(b []byte) error {
